@@ -11,6 +11,8 @@ cp "$REPO/go.sum" harness/go.sum
 mkdir -p lean/JetVerif/Generated build
 rm -f lean/JetVerif/Generated/Facts.lean lean/JetVerif/Generated/Unicode.lean
 ./build/factgen -repo "$REPO" -o lean/JetVerif/Generated/Facts.lean -unicode lean/JetVerif/Generated/Unicode.lean
-(cd lean && lake build JetVerif jetdriver)
+# every property and audit module as well, so that the first run of a check does not pay for the proofs
+MODS=$(cd lean/JetVerif && ls Props/*.lean Audit/*.lean | sed 's#/#.#; s#\.lean$##; s#^#JetVerif.#')
+(cd lean && lake build JetVerif jetdriver $MODS)
 (cd harness && go build -tags verif -o ../build/jetcheck ./cmd/jetcheck)
 echo setup ok
